@@ -616,6 +616,9 @@ func Returns(f *ssa.Function) []*ssa.Return {
 	var out []*ssa.Return
 	Instrs(f, func(in ssa.Instruction) {
 		if r, ok := in.(*ssa.Return); ok {
+			if f.Recover != nil && in.Block() == f.Recover {
+				return // synthetic exit taken only after a recovered panic
+			}
 			out = append(out, r)
 		}
 	})
